@@ -380,14 +380,7 @@ func (x *Interp) execStmt(fr *frame, st *Stmt) {
 			where = "ccleanup"
 		}
 		x.ev(Event{K: "creg", Scope: sc.id, ID: id})
-		t.Cleanup(func() {
-			x.ev(Event{K: "crun", Scope: sc.id, ID: id})
-			x.sampleCtxs(sc, "cleanup")
-			normal := false
-			defer func() { x.ev(Event{K: "cleave", Scope: sc.id, ID: id, Normal: normal}) }()
-			x.exec(&frame{sc: sc, where: where}, st.Body)
-			normal = true
-		})
+		t.Cleanup(func() { x.cleanupEntry(sc, id, where, st) })
 	case "ctx":
 		ctx := t.Context()
 		x.mu.Lock()
@@ -521,6 +514,19 @@ func (x *Interp) signal(fr *frame, st *Stmt) {
 	sites[st.Site%numSites](fr.sc.t, st.Kind, base, st.Site)
 }
 
+// cleanupEntry is the body of every registered cleanup callback. It is a named method (not a closure of execStmt,
+// whose number changes whenever another closure is added there): harnessStack stops at it by name.
+//
+//go:noinline
+func (x *Interp) cleanupEntry(sc *scope, id int, where string, st *Stmt) {
+	x.ev(Event{K: "crun", Scope: sc.id, ID: id})
+	x.sampleCtxs(sc, "cleanup")
+	normal := false
+	defer func() { x.ev(Event{K: "cleave", Scope: sc.id, ID: id, Normal: normal}) }()
+	x.exec(&frame{sc: sc, where: where}, st.Body)
+	normal = true
+}
+
 // predSignal raises the signal of a "sig" predicate on the T whose Draw call is in flight.
 func (x *Interp) predSignal(s *GenSpec) {
 	fr := x.drawFrame
@@ -549,7 +555,7 @@ func harnessStack() string {
 		if strings.HasPrefix(f.Function, "vh.") {
 			fn := strings.TrimPrefix(f.Function, "vh.")
 			fmt.Fprintf(&b, "%s:%d;", fn, f.Line)
-			if fn == "(*Interp).Prop" || fn == "(*Interp).execStmt.func1" || fn == "(*Interp).runCustom" {
+			if fn == "(*Interp).Prop" || fn == "(*Interp).cleanupEntry" || fn == "(*Interp).runCustom" {
 				break
 			}
 		}
